@@ -238,6 +238,129 @@ def run(ctx, res):
         if 'lims' in c and 'via' not in c:
             c['via'] = ('handler', 'attr')[k % 3 == 2]
     _evaluate(ctx, cases, res)
+    refusal_family(ctx, res)
+
+
+def refusal_family(ctx, res, only=None):
+    """Oracle only (no model line): a request that the session REFUSES to run - its accumulated
+    cost is past `cost_hard_limit`, the limiter raises instead of admitting the handler - is an
+    incoming request like any other: it must be answered exactly once, under its own id (with an
+    error), before the session hangs up.  Shapes: a single request, and a batch whose only
+    request member is refused (with and without notifications after it; a batch with several
+    request members is not judged here - what a disconnect may cut short is C03's business).
+    History: k ordinary requests answered normally, then the cost is pushed past the hard limit
+    (public `bump_cost`), then the refused request."""
+    jr, rawsocket, session_mod = (fresh_import(ctx.repo, 'aiorpcx.jsonrpc'),
+                                  fresh_import(ctx.repo, 'aiorpcx.rawsocket'),
+                                  fresh_import(ctx.repo, 'aiorpcx.session'))
+    cases = []
+    for proto in ('v1', 'v2', 'loose'):
+        for before in (0, 2):
+            for idv in (7, 'q', 0):
+                cases.append({'proto': proto, 'before': before, 'id': idv, 'shape': 'single'})
+                if proto != 'v1':
+                    cases.append({'proto': proto, 'before': before, 'id': idv, 'shape': 'batch1'})
+                    cases.append({'proto': proto, 'before': before, 'id': idv, 'shape': 'batch1+notifs'})
+
+    if only is not None:
+        cases = [{k: only[k] for k in ('proto', 'before', 'id', 'shape')}]
+
+    def wire(proto, method, arg, idv=None, notif=False):
+        m = {'method': method, 'params': [arg]}
+        if proto == 'v2':
+            m['jsonrpc'] = '2.0'
+        if not notif:
+            m['id'] = idv
+        elif proto == 'v1':
+            m['id'] = None
+        return m
+
+    async def one(c):
+        proto = getattr(jr, PROTO_CLASS[c['proto']])
+
+        class Server(session_mod.RPCSession):
+            cost_soft_limit = 200
+            cost_hard_limit = 500
+            cost_sleep = 0
+
+            def default_connection(self):
+                return jr.JSONRPCConnection(proto)
+
+            async def handle_request(self, request):
+                return request.args[0]
+
+        logging.disable(logging.CRITICAL)
+        try:
+            p, transport, session = make_session(rawsocket, Server, session_mod.SessionKind.SERVER)
+            ok_before = 0
+            for k in range(c['before']):
+                p.data_received(json.dumps(wire(c['proto'], 'm', k, 1000 + k)).encode() + b'\n')
+                await settle(10)
+                out = take(transport)
+                ok_before += int(len(out) == 1 and isinstance(out[0][0], dict)
+                                 and out[0][0].get('id') == 1000 + k and out[0][0].get('result') == k)
+            session.bump_cost(100000)
+            req = wire(c['proto'], 'm', 5, c['id'])
+            if c['shape'] == 'single':
+                msg = req
+            elif c['shape'] == 'batch1':
+                msg = [req]
+            else:
+                # the request comes first: a refused NOTIFICATION ahead of it would start the
+                # disconnect before the request's task has run (what a disconnect cuts short is
+                # C03's subject, not judged here)
+                msg = [req, wire(c['proto'], 'n', 1, notif=True), wire(c['proto'], 'n', 2, notif=True)]
+            p.data_received(json.dumps(msg).encode() + b'\n')
+            await settle(30)
+            out = take(transport)
+            return {'ok_before': ok_before, 'out': [o[0] for o in out], 'closing': transport.is_closing()}
+        finally:
+            logging.disable(logging.NOTSET)
+
+    async def go():
+        out = []
+        for c in cases:
+            try:
+                out.append(await one(c))
+            except (vloop.Deadlock, vloop.Livelock) as e:
+                out.append({'hang': type(e).__name__})
+        return out
+    recs = vloop.run(go())
+    for c, rec in zip(cases, recs):
+        sc = dict(c, layer='session', family='refused-past-hard-limit')
+        if 'hang' in rec:
+            res.violation('c02:session-hang', sc, rec['hang'])
+            continue
+        if rec['ok_before'] != c['before']:
+            res.violation('c02:request-not-answered@session', sc,
+                          f'only {rec["ok_before"]} of {c["before"]} ordinary requests were answered '
+                          f'with their result under their id')
+            continue
+        msgs = rec['out']
+        entries = []
+        for m in msgs:
+            entries += m if isinstance(m, list) else [m]
+        mine = [e for e in entries if isinstance(e, dict) and e.get('id') == c['id']
+                and type(e.get('id')) is type(c['id'])]
+        why = None
+        if len(mine) == 0:
+            why = (f'the refused request (id {c["id"]!r}) was never answered; written: {msgs}')
+        elif len(mine) > 1:
+            why = f'the refused request (id {c["id"]!r}) was answered {len(mine)} times: {msgs}'
+        elif len(entries) != 1:
+            why = f'{len(entries)} reply entries for one request: {msgs}'
+        elif c['shape'] != 'single' and not isinstance(msgs[0], list):
+            why = f'a batch was answered by a single message: {msgs}'
+        elif c['shape'] == 'single' and isinstance(msgs[0], list):
+            why = f'a single request was answered by a batch: {msgs}'
+        elif mine[0].get('error') is None or 'result' in mine[0] and mine[0]['result'] is not None:
+            why = f'the refused request was not answered with an error: {mine[0]}'
+        res.count('session_refused_requests_judged')
+        if why:
+            res.violation('c02:request-not-answered@session' if len(mine) == 0 else
+                          'c02:reply-count@session', sc, why)
+    res['evaluations'] += len(cases)
+    res['scopes']['session_refusal_scenarios'] = len(cases)
 
 
 def _nonfinite_single(c):
@@ -282,4 +405,6 @@ def limit_scenarios(jr):
 
 def replay(ctx, case, res):
     case = {k: v for k, v in case.items() if k != 'layer'}
+    if case.get('family') == 'refused-past-hard-limit':
+        return refusal_family(ctx, res, only=case)
     _evaluate(ctx, [case], res)
